@@ -81,6 +81,7 @@ type Sent struct {
 	Erc20   *Erc20Call
 	PcCall  *PcCall
 	Wit     *Witness
+	Stk     *SignedStk
 }
 
 // World is the interpreter state.
